@@ -44,3 +44,4 @@ void h_tls_cbc_records_quiet(void)
 	g_mon_active = 0;
 	V_REACH();
 }
+
